@@ -212,7 +212,12 @@ def main():
         if job['kind'] == 'scenario':
             for t in job['trees']:
                 build_tree(t)
-            results.append([run_call(c) for c in job['calls']])
+            rs = []
+            for c in job['calls']:
+                for t in c.get('build_first') or []:   # a file that appears between two calls
+                    build_tree(t)
+                rs.append(run_call(c))
+            results.append(rs)
         else:
             results.append([run_append(c) for c in job['cases']])
     json.dump({'pydl_file': pydl.__file__, 'results': results}, _real_stdout)
